@@ -1,6 +1,7 @@
 /-
 Props/C06.lean — each output element depends only on its own source, path index and observer.
 -/
+import MagpyVerif.Lemmas.TrimeshBatch
 import MagpyVerif.Lemmas.Level2Shape
 namespace MagpyVerif.C06
 open MagpyVerif MagpyVerif.Level2
@@ -213,5 +214,29 @@ open Level2.Example in
 example : ∃ out, getBH exFlip exMin exMax exEntries exSensors true true .sum = .ok out ∧
     out.shape = [2, 2] :=
   ⟨_, getBH_ok _ _ _ _ _ _ _ _ (exNotBad _), by simp [shape0, exPathLen]; simp [exSensors]⟩
+
+
+/-! ### kernels with batch-level control flow: TriangularMesh -/
+
+/-- C06 (TriangularMesh, `in_out="auto"`): whatever rows are evaluated together — any number, any order, the same
+mesh re-appearing after a different one, single-row groups at either end — the grouping loop of `BHJM_magnet_trimesh`
+(consecutive rows with equal meshes share one inside/outside test against the group's first mesh) gives every row
+exactly what it gets when evaluated alone: its own core value, plus its own polarization iff its observer is inside
+ITS OWN mesh. -/
+theorem trimesh_grouping_rowwise {M O V : Type} [DecidableEq M] [Add V]
+    (inside : M → O → Bool) (rows : List (Trimesh.Row M O V)) :
+    Trimesh.addInside inside rows = rows.map (Trimesh.rowwise inside) :=
+  Trimesh.addInside_rowwise inside rows
+
+/-- consequence: the value of a row does not depend on its batch mates -/
+theorem trimesh_row_independent_of_batch {M O V : Type} [DecidableEq M] [Add V]
+    (inside : M → O → Bool) (pre post : List (Trimesh.Row M O V)) (r : Trimesh.Row M O V) :
+    (Trimesh.addInside inside (pre ++ r :: post))[pre.length]? = (Trimesh.addInside inside [r])[0]? := by
+  rw [trimesh_grouping_rowwise, trimesh_grouping_rowwise]
+  simp
+
+-- non-vacuity: meshes A B A with the middle observer inside A only: the middle row (mesh B) gets nothing
+example : MagpyVerif.Trimesh.addInside (fun (m : Nat) (x : Nat) => m == 0 && x == 1)
+    [(⟨0, 0, 5, 0⟩ : MagpyVerif.Trimesh.Row Nat Nat Int), ⟨1, 1, 7, 0⟩, ⟨0, 1, 9, 0⟩] = [(0 : Int), 0, 9] := by decide
 
 end MagpyVerif.C06
